@@ -37,6 +37,20 @@ def qe_desc(draw, wave_nm):
     m = draw(st.integers(2, 12))
     k = draw(st.integers(0, 2**31 - 1))
     w = np.linspace(max(lo, 10.0), hi, m)
+    rel = draw(st.sampled_from(["wider", "wider", "on_grid", "narrower"]))
+    if rel == "on_grid":
+        # the sampled wavelengths are themselves grid points of the efficiency curve
+        w = np.array(sorted(set([max(lo, 10.0), hi] + list(wave_nm) + [0.5 * (min(wave_nm) + max(wave_nm)) + 0.37])))
+        m = len(w)
+    elif rel == "narrower" and n >= 2:
+        # the curve ends inside the sampled band: wavelengths beyond it see no efficiency (clearly inside/outside:
+        # the ends sit 30 % / 70 % of the way between two sampled wavelengths)
+        ws = sorted(wave_nm)
+        i = draw(st.integers(0, n - 2))
+        a = ws[i] + 0.3 * (ws[i + 1] - ws[i]) if draw(st.booleans()) else max(lo, 10.0)
+        b = ws[n - 2] + 0.7 * (ws[n - 1] - ws[n - 2]) if draw(st.booleans()) or a == max(lo, 10.0) else hi
+        if b > a:
+            w = np.linspace(a, b, m)
     return {"kind": kind, "w_nm": w, "v": np.random.default_rng(k).uniform(0, 1, size=m),
             "unit": draw(st.sampled_from(UNITS))}
 
